@@ -34,6 +34,11 @@ def op_universe():
             ops.append(('register_language', n, PATTERNS[NAMES.index(n) % 3], kind))
     # a language registered without a file pattern (the default): found by name, never by file name
     ops.append(('register_language', 'nopat', None, 'instance'))
+    # a second language whose pattern also matches what '*.x' matches; the argument of a lookup may itself be
+    # a pattern (documented: file name or pattern): matching two languages is ambiguous however it is spelled
+    ops.append(('register_language', 'wild', '*.?', 'instance'))
+    ops.append(('languages_for_file', '*.x'))
+    ops.append(('language_for_file', '*.x'))
     for n in ('lng', 'LNG', 'other', 'nope'):
         ops.append(('language_description', n))
         ops.append(('metamodel_for_language', n, False))
